@@ -160,6 +160,22 @@ def step (st : State) (w : List String) : State × String :=
       let lb := labelCount name
       if minimized ml lb lvl nm then (st, s!"t {lvl + 1}") else (st, s!"f {lb}")
     | _, _, _ => (st, "bad-op")
+  | "sigs" :: "new" :: _ => (st, "unmodelled")
+  | ["sigs", "verify", mode, cand, rrset, sig, gpos, kpos, s, k] =>
+    match parseMode mode, cand.toNat?, rrset.toNat?, sig.toNat?, s.toNat?, k.toNat? with
+    | some m, some cand, some rrset, some sig, some s, some k =>
+      let hitAt : Option Nat := match gpos.toNat?, kpos.toNat? with
+        | some _, some kp => some kp
+        | _, _ => none
+      let sigs := (List.range s).map fun j => (k, if gpos.toNat? = some j then hitAt else none)
+      let (_, ops, out) := verifyRRset (m = .enforce) { cand := cand, rrset := rrset, budget := sig } sigs 0 0
+      match out with
+      | .verified => (st, s!"ok=t err=- ops={ops}")
+      | .failed => (st, s!"ok=f err=bogus ops={ops}")
+      | .work .dnskeyCand => (st, s!"ok=f err=cand ops={ops}")
+      | .work .rrsetSig => (st, s!"ok=f err=rrset ops={ops}")
+      | .work _ => (st, s!"ok=f err=sig ops={ops}")
+    | _, _, _, _, _, _ => (st, "bad-op")
   | "l3" :: _ => (st, "unmodelled")
   | _ => (st, "bad-op")
 
